@@ -178,6 +178,37 @@ static void run_case(Tape &t)
 	if (mode != 1 && nl == 0) nl = 1;
 	size_t tl = mode == 1 ? 4 + 2 * (t.u8() % 7) : 16;
 	Bytes nonce = t.filled(nl);
+	bool crafted_nonce = false;
+	if (mode == 2 && t.u8() % 4 == 0) {
+		// EAX: a 16-byte nonce chosen so that the initial CTR value OMAC^0(nonce) sits just below a carry boundary of
+		// the 128-bit counter (random nonces reach that with probability ~2^-27).  OMAC^0(N) for one full block is
+		// E(E(0^127 || 0) ^ N ^ K1) with K1 = dbl(E(0)), hence N = D(target) ^ E(0..0) ^ K1... (first block is [0]_128)
+		auto ecb1 = [&](const uint8_t *in, uint8_t *out, bool enc) {
+			EVP_CIPHER_CTX *x = EVP_CIPHER_CTX_new();
+			int ol = 0;
+			EVP_CipherInit_ex(x, ecb(kl), nullptr, key.data(), nullptr, enc ? 1 : 0);
+			EVP_CIPHER_CTX_set_padding(x, 0);
+			EVP_CipherUpdate(x, out, &ol, in, 16);
+			EVP_CIPHER_CTX_free(x);
+		};
+		uint8_t zero[16] = { 0 }, L[16], K1[16], target[16], dt[16];
+		ecb1(zero, L, true);
+		unsigned carry = 0;
+		for (int i = 15; i >= 0; i--) { unsigned v = ((unsigned)L[i] << 1) | carry; K1[i] = (uint8_t)v; carry = v >> 8; }
+		if (carry) K1[15] ^= 0x87;
+		t.fill(target, 16);
+		unsigned cls = t.u8() % 4;
+		uint8_t back = (uint8_t)(1 + t.u8() % 40);
+		size_t nff = cls == 0 ? 4 : cls == 1 ? 8 : cls == 2 ? 12 : 16;
+		memset(target + 16 - nff, 0xFF, nff);
+		target[15] = (uint8_t)(0xFF - back);
+		ecb1(target, dt, false);
+		// first OMAC block is the 16-byte encoding of t = 0, whose encryption is L
+		nonce.assign(16, 0);
+		for (int i = 0; i < 16; i++) nonce[(size_t)i] = dt[i] ^ L[i] ^ K1[i];
+		nl = 16;
+		crafted_nonce = true;
+	}
 	size_t al = draw_len(t), ml = draw_len(t);
 	Bytes aad = t.filled(al), msg = t.filled(ml);
 	std::vector<size_t> asp = split(t, al), msp = split(t, ml);
@@ -187,6 +218,7 @@ static void run_case(Tape &t)
 	static const char *mn[] = { "GCM", "CCM", "EAX" };
 	std::string desc = fmt("%s aes_%s%s key=%zu nonce=%zu tag=%zu aad=%zu[%s] msg=%zu[%s]%s%s", mn[mode], ai.name, mode == 0 ? (std::string("/ghash_") + g.name).c_str() : "",
 		kl, nl, tl, al, shape(asp).c_str(), ml, shape(msp).c_str(), shortcut == 1 ? " eax-pre-aad-state" : shortcut == 2 ? " eax-post-aad-state" : "", reuse ? " reused-context" : "");
+	if (crafted_nonce) { desc += " nonce-crafted-for-counter-carry"; stats.cls("eax-counter-carry-nonce"); }
 
 	// reference
 	Bytes rct;
